@@ -88,6 +88,7 @@ func c03(c *Ctx) {
 	r.Rule("C03.errors-final", "a failed frame read is final: the frame parser discards what it had consumed of a header, so reading on after an error (a timeout included) would continue in the middle of a frame and deliver wrong messages (same rule as C05.sticky)")
 	rd.sticky("C03.errors-final")
 	c.readerSiblings("C03.reader-wrappers")
+	readJSONRule(c, "C03.reader-wrappers")
 	r.Rule("C03.inflater-exclusive", "an inflater returned to flateReaderPool is forgotten by the wrapper in the same step (never used or returned twice), so two connections never share one decompressor")
 	r.Assume("bufio.Reader.Read returns 0 <= n <= len(p)")
 
